@@ -63,6 +63,7 @@ class Plan:
     def __init__(self):
         self.modules = []        # (relative source path, rust text)
         self.files = []          # (relative path, full text) new files in overlay
+        self.prepends = []       # (relative path, text) inserted at the top of a source file of the overlay copy
         self.harnesses = []      # spec dicts
         self.glue = []           # callables(ctx) -> list of query result dicts
         self.pre = []            # callables(ctx) run after build, before harnesses (e.g. constant extraction)
@@ -128,6 +129,8 @@ def run_property(pid, tier, seed, jobs):
             ov.append(rel, text)
         for rel, text in plan.files:
             ov.write(rel, text)
+        for rel, text in plan.prepends:
+            ov.prepend(rel, text)
         metas = {}
         if plan.harnesses:
             ov.seed_target("kani")
